@@ -584,6 +584,30 @@ impl Engine for CompSim {
             }
         }
         deco(rng, &mut spec, &mut with_fs);
+        // the same long spelling on two levels with different arity: a value-taking, non-global option of a
+        // level and a value-less flag of its subcommand (each level must be looked up in its own definition)
+        fn shadow(rng: &mut Rng, c: &mut CmdSpec) {
+            let parent_long = c.args.iter().find(|a| a.takes_values() && !a.global && !a.is_positional() && a.long.is_some() && a.value_range().0 >= 1).and_then(|a| a.long.clone());
+            if let Some(l) = parent_long {
+                for sub in c.subs.iter_mut() {
+                    if rng.chance(1, 2) {
+                        if let Some(f) = sub.args.iter_mut().find(|a| !a.takes_values() && !a.global && a.long.is_some() && matches!(a.action, Action::SetTrue | Action::SetFalse | Action::Count)) {
+                            f.long = Some(l.clone());
+                        }
+                    }
+                }
+            }
+            for sub in c.subs.iter_mut() {
+                shadow(rng, sub);
+            }
+        }
+        if rng.chance(1, 3) {
+            let before = spec.clone();
+            shadow(rng, &mut spec);
+            if gate(&spec).is_err() {
+                spec = before;
+            }
+        }
         let n_ops = rng.urange(1, 8);
         let mut ops = Vec::new();
         // a third of the histories start with a parse (the command is then partly built when the engine sees it)
